@@ -229,19 +229,23 @@ Definition sum4 (L : locator) (T : atom -> res xtable) (x : Q) (d : dict)
                 (s1 + Qabs (snd p) * a1, s2 + Qabs (snd p) * a2)))
             d ((Some 0, Some 0), (0, 0)).
 
+Definition ored (a : option Q) : option Q := match a with Some x => Some (Qred x) | None => None end.
+
 Definition xray_sld_run (L : locator) (E : aenv) (re na : Q) (T : atom -> res xtable)
            (s : struct) (density natural_density : option Q) (x : Q)
   : res ((option Q * option Q) * (Q * Q)) :=
   match init_density E s density natural_density with
   | None => Raise
-  | Some rho =>
+  | Some rho0 =>
+      let rho := Qred rho0 in
       let d := count_atoms s in
       if negb (has_table T d) then Raise else
-      let m := dweight (e_mass E) d in
+      let m := Qred (dweight (e_mass E) d) in
       if Qeq_bool m 0 then Val ((Some 0, Some 0), (0, 0)) else
       let '((v1, v2), (s1, s2)) := sum4 L T x d in
-      let k := Qabs (rho / m * na * (1 # 100000000) * re) in
-      Val ((sld_of re na rho m v1, sld_of re na rho m v2), (k * s1, k * s2))
+      let k := Qred (Qabs (rho / m * na * (1 # 100000000) * re)) in
+      Val ((ored (sld_of re na rho m (ored v1)), ored (sld_of re na rho m (ored v2))),
+           (Qred (k * Qred s1), Qred (k * Qred s2)))
   end.
 
 (* Xray.sld of a bare atom: f*electron_radius*number_density*1e-8, (None, None) when there is
